@@ -104,6 +104,12 @@ def check(case, ctx):
     if not ok:
         ctx.violation(blk + "_raised", f"logic.{blk}({w}) raised {c!r}\n{getattr(c, '_tb', '')}")
         return
+    if case["seed"] % 5 == 0:
+        from rv.props._util import repeat_call
+
+        fn2, a2 = {"adder": (cg.logic.adder, (w, case.get("cin"), case.get("cout"))), "mux": (cg.logic.mux, (w,)), "popcount": (cg.logic.popcount, (w,)), "half_adder": (cg.logic.half_adder, ()), "full_adder": (cg.logic.full_adder, ())}[blk]
+        if not repeat_call(ctx, blk, f"logic.{blk}({w})", fn2, a2, {}, (ok, c)):
+            return
     net = Net.of(c)
     probs = own_lint(net)
     okl, rl = ctx.call(cg.lint, c)
